@@ -98,7 +98,11 @@ func driveCR(p *Plan, shard int, w *Writer, t *codec.Table) {
 		return n
 	}
 	id := 0
-	own := func() bool { id++; return id%p.Shards == shard }
+	chunkI, chunkN := chunkOf(p)
+	own := func() bool {
+		id++
+		return id%p.Shards == shard && (chunkN <= 1 || (id/p.Shards)%chunkN == chunkI)
+	}
 	applyAll := func(sess int, mk func() (jd.Diff, bool), nt int) {
 		for k := 0; k < nt; k++ {
 			c := targets[(sess+k*5)%len(targets)]
@@ -144,7 +148,7 @@ func driveCR(p *Plan, shard int, w *Writer, t *codec.Table) {
 	}
 	nlong := scale(6000)
 	if !quick {
-		nlong = 120000
+		nlong = 60000
 	}
 	for c := 0; c < nlong; c++ {
 		n := 4 + pick(p.Seed, 4, "ln", c)
@@ -226,7 +230,7 @@ func driveCR(p *Plan, shard int, w *Writer, t *codec.Table) {
 	}
 	nops := scale(8000)
 	if !quick {
-		nops = 150000
+		nops = 60000
 	}
 	for c := 0; c < nops; c++ {
 		n := 3 + pick(p.Seed, 3, "on", c)
@@ -266,6 +270,10 @@ func driveCR(p *Plan, shard int, w *Writer, t *codec.Table) {
 		nmut = 6000
 	}
 	for c := 0; c < nmut; c++ {
+		if chunkN > 1 && c%chunkN != chunkI {
+			rng.Intn(len(seeds)) // keep the generator in step
+			continue
+		}
 		sd := seeds[rng.Intn(len(seeds))]
 		b := []byte(sd.text)
 		for k := 0; k < 1+rng.Intn(3) && len(b) > 0; k++ {
